@@ -236,31 +236,33 @@ def record(ck, binary, ops):
 
 # ----------------------------------------------------------------------------------------------- verdict
 def judge(ck, o, pre, acked, ops, where, replay):
-    """o: projection of the reopened store or {"err"}; pre: TLC's prefix replies/projections; returns True if non-trivial"""
+    """o: projection of the reopened store or {"err"}; pre: TLC's prefix replies/projections of the history ops"""
+    ctx = "operations %d..%d of the history: %s" % (max(1, acked - 3), min(len(ops), acked + 2), json.dumps(ops[max(0, acked - 4):acked + 2]))
+    if len(ops) > acked + 4:                       # what was never started cannot matter: keep the replay short
+        replay = dict(replay, ops=ops[:acked + 4])
     if "err" in o and "simple" not in o:
-        ck.violation("C23:reopen-fails", "reopening after %s (acknowledged %d of %d) fails: %s; history %s"
-                     % (where, acked, len(ops), o["err"], json.dumps(ops)[:1200]), replay)
+        ck.violation("C23:reopen-fails", "reopening after %s (acknowledged %d of %d) fails: %s; %s" % (where, acked, len(ops), o["err"], ctx), replay)
         return
     if "err" in o:
-        ck.violation("C23:read-fails-after-reopen", "after %s (acknowledged %d of %d) the reopened store answers errors: %s; history %s"
-                     % (where, acked, len(ops), o["err"], json.dumps(ops)[:1200]), replay)
+        ck.violation("C23:read-fails-after-reopen", "after %s (acknowledged %d of %d) the reopened store answers errors: %s; %s"
+                     % (where, acked, len(ops), o["err"], ctx), replay)
         return
     p = norm_obs(o)
+    if any(pre[j]["proj"] == p for j in range(acked, len(pre))):
+        return
     bad = consistent(p)
-    js = [j for j in range(acked, len(pre)) if pre[j]["proj"] == p]
-    if not js:
-        content = lambda q: (q["simple"], q["kids"], q["lease"])
-        if any(content(pre[j]["proj"]) == content(p) for j in range(acked, len(pre))) and bad:
-            ck.violation("C23:listing-inconsistent", "after %s (acknowledged %d of %d) the recovered content is a legal prefix state but %s; history %s"
-                         % (where, acked, len(ops), bad, json.dumps(ops)[:1200]), replay)
-        elif any(pre[j]["proj"] == p for j in range(0, acked)):
-            j = max(j for j in range(0, acked) if pre[j]["proj"] == p)
-            ck.violation("C23:acknowledged-operation-lost", "after %s the recovered store %s is the state after %d operations although %d were acknowledged; history %s"
-                         % (where, json.dumps(p), j, acked, json.dumps(ops)[:1200]), replay)
-        else:
-            ck.violation("C23:not-a-prefix-state", "after %s (acknowledged %d of %d) the recovered store %s is not the state after any prefix "
-                         "(%sexpected one of the states after %d..%d operations, e.g. %s); history %s"
-                         % (where, acked, len(ops), json.dumps(p), (bad + "; ") if bad else "", acked, len(ops), json.dumps(pre[acked]["proj"]), json.dumps(ops)[:1200]), replay)
+    content = lambda q: (q["simple"], q["kids"], q["lease"])
+    if bad and any(content(pre[j]["proj"]) == content(p) for j in range(acked, len(pre))):
+        ck.violation("C23:listing-inconsistent", "after %s (acknowledged %d of %d) the recovered content is a legal prefix state but %s; %s"
+                     % (where, acked, len(ops), bad, ctx), replay)
+    elif any(pre[j]["proj"] == p for j in range(0, acked)):
+        j = max(j for j in range(0, acked) if pre[j]["proj"] == p)
+        ck.violation("C23:acknowledged-operation-lost", "after %s the recovered store %s is the state after %d operations although %d were acknowledged; %s"
+                     % (where, json.dumps(p), j, acked, ctx), replay)
+    else:
+        ck.violation("C23:not-a-prefix-state", "after %s (acknowledged %d of %d) the recovered store %s is not the state after any prefix of the history "
+                     "that contains the acknowledged operations (%sthe state after %d operations is %s); %s"
+                     % (where, acked, len(ops), json.dumps(p), (bad + "; ") if bad else "", acked, json.dumps(pre[acked]["proj"]), ctx), replay)
 
 
 def run(ck):
@@ -269,16 +271,16 @@ def run(ck):
     if ck.replay is not None:
         rp = ck.replay
         kill_hists = [rp["ops"]] if rp.get("mode") == "kill" else []
-        rec_hists = [rp["ops"]] if rp.get("mode") != "kill" else []
+        rec_hists = [rp["ops"]] if rp.get("mode") != "kill" or len(rp["ops"]) <= 80 else []     # every boundary: deterministic
         nkill = 40
     elif ck.thorough:
         kill_hists = [gen_history(rng, 60) for _ in range(6)] + [gen_history(rng, 700)] + directed()
-        rec_hists = directed() + [gen_history(rng, 10, reopen=1) for _ in range(6)]
+        rec_hists = directed() + [gen_history(rng, 10, reopen=1) for _ in range(10)]
         nkill = 24
     else:
         kill_hists = [gen_history(rng, 60) for _ in range(2)] + [gen_history(rng, 400)]
         rec_hists = [directed()[0], gen_history(rng, 5, reopen=1)]
-        nkill = 6
+        nkill = 8
     hists = kill_hists + rec_hists
     pre = oracle(ck, hists)
     kpre, rpre = pre[:len(kill_hists)], pre[len(kill_hists):]
